@@ -205,6 +205,10 @@ EDGE_FAMS = {
     "rev": [(1, 0), (4, 2), (3, 0)],
     "anti": [(0, 1), (1, 0), (2, 3)],  # directed graphs only: both directions of one undirected edge
     "tree": [(0, 1), (0, 2), (1, 3), (1, 4)],
+    # directed letters whose edges run from the higher to the lower vertex (below the diagonal of the adjacency matrix)
+    "desc": [(2, 1), (3, 2), (4, 3), (0, 4)],
+    "alldesc": [(4, 0), (3, 1), (2, 1)],
+    "tree-root4": [(4, 3), (4, 2), (3, 1), (3, 0)],  # a tree whose root is the last vertex: every edge descends
 }
 TRILIST = [(0, 1, 2), (1, 2, 3), (2, 3, 4)]
 LABEL_FAMS = {
@@ -220,6 +224,9 @@ SHAPE_LETTERS = (
     + [("PointTree", "tree", "-"), ("TriMesh", "tri", "-")]
     + [("LabelledPointUndirectedGraph", e, lf) for lf in ("unicode", "overlap", "nonalpha") for e in ("empty", "some")]
 )
+N_BASE_LETTERS = len(SHAPE_LETTERS)
+# LJSON-only letters (appended so that the indices of the shared letters stay what they were)
+SHAPE_LETTERS = SHAPE_LETTERS + [("PointDirectedGraph", "desc", "-"), ("PointDirectedGraph", "alldesc", "-"), ("PointTree", "tree-root4", "-")]
 GROUP_NAMES = ["g.one", "ünï-ß", "Z", "a b.c", "10", "9", "PTS", "grp.ljson", "LJSON"]
 NAN_PATTERNS = ["none", "coord", "point", "first", "all"]
 SPECIAL = [-0.0, 1e-300, 7e17, 1.0 / 3.0, 0.1, 1e-05, 123456789.12345679, 5e-324, -2.5, 2.0, 1e22, 0.30000000000000004, -1e-7, 255.0, 3.0000000000000004]
@@ -286,7 +293,7 @@ def make_shape(letter, pts):
     elif cls == "PointDirectedGraph":
         obj = ms.PointDirectedGraph.init_from_edges(pts, earr)
     elif cls == "PointTree":
-        obj = ms.PointTree.init_from_edges(pts, earr, 0)
+        obj = ms.PointTree.init_from_edges(pts, earr, 4 if ef == "tree-root4" else 0)
     elif cls == "TriMesh":
         obj = ms.TriMesh(pts, np.array(tl, dtype=int).reshape(-1, 3))
     elif cls == "LabelledPointUndirectedGraph":
@@ -777,18 +784,48 @@ def ow_object(exporter, which, seed):
     raise ValueError(exporter)
 
 
-def _export_call(exporter, obj, overwrite):
+# documented options of the exporters, crossed with overwrite / path form / existing-or-not:
+# extension= (landmark, image): absent, or the extension of the path given explicitly in three spellings;
+# protocol= (pickle): absent, the default given explicitly, two others; fps= (video): absent, the default, another
+EXT_FORMS = [None, "dot", "nodot", "upper"]
+PROTO_FORMS = [None, "p2", "p4", "p0"]
+FPS_FORMS = [None, "fps30", "fps1"]
+
+
+def ext_form(form, name_or_ext):
+    """the extension of a file name as the `extension` argument: '.ljson' / 'ljson' / '.LJSON' (None: not passed)."""
+    low = name_or_ext.lower()
+    ext = ".pkl.gz" if low.endswith(".pkl.gz") else "." + low.rsplit(".", 1)[-1]
+    return {"dot": ext, "nodot": ext[1:], "upper": ext.upper()}[form]
+
+
+def opt_forms(exporter):
+    if exporter in ("ljson", "pts", "image", "gif"):
+        return EXT_FORMS
+    if exporter in ("pkl", "pklgz"):
+        return PROTO_FORMS
+    return FPS_FORMS
+
+
+def _export_call(exporter, obj, overwrite, opt=None, name=None):
     import menpo.io as mio
 
-    if exporter in ("ljson", "pts"):
-        return lambda fp: mio.export_landmark_file(obj, fp, overwrite=overwrite)
-    if exporter in ("image", "gif"):
-        return lambda fp: mio.export_image(obj, fp, overwrite=overwrite)
-    if exporter in ("pkl", "pklgz"):
-        return lambda fp: mio.export_pickle(obj, fp, overwrite=overwrite)
-    if exporter == "video":
-        return lambda fp: mio.export_video(obj, fp, overwrite=overwrite)
-    raise ValueError(exporter)
+    kw = {}
+    if exporter in ("ljson", "pts", "image", "gif"):
+        if opt is not None:
+            kw["extension"] = ext_form(opt, name)
+        fn = mio.export_landmark_file if exporter in ("ljson", "pts") else mio.export_image
+    elif exporter in ("pkl", "pklgz"):
+        if opt is not None:
+            kw["protocol"] = int(opt[1:])
+        fn = mio.export_pickle
+    elif exporter == "video":
+        if opt is not None:
+            kw["fps"] = int(opt[3:])
+        fn = mio.export_video
+    else:
+        raise ValueError(exporter)
+    return lambda fp: fn(obj, fp, overwrite=overwrite, **kw)
 
 
 # ------------------------------------------------------------------------------------------------
@@ -799,6 +836,11 @@ class C16(Check):
     def __init__(self, tier, seed):
         Check.__init__(self, tier, seed)
         _base()  # the parent process owns (and removes) the run's temporary tree
+        if tier == "thorough":
+            # the core re-expands every 7th merged duplicate with the whole alphabet (confluence check); with the
+            # option cross product an overwrite state has ~250 letters and that alone cost 12x the exploration.
+            # One in 101 keeps it at about the cost of the exploration itself (VERIF_CONFLUENCE overrides).
+            os.environ.setdefault("VERIF_CONFLUENCE", "101")
 
     def depth(self):
         return 2 if self.tier == "quick" else 3
@@ -808,7 +850,7 @@ class C16(Check):
         quick = self.tier == "quick"
         out = []
         nans = NAN_PATTERNS[:3] if quick else NAN_PATTERNS
-        n_letters = len(SHAPE_LETTERS)
+        n_letters = N_BASE_LETTERS
         # LJSON: bare shapes
         for li in range(n_letters):
             for d in (2, 3):
@@ -833,6 +875,13 @@ class C16(Check):
             for d in (2, 3):
                 k += 1
                 out.append(("lj", ("manager", "dict")[k % 2], ((k % 8, i), ((k + 1) % 8, j), ((k + 5) % 8, m)), d, NAN_PATTERNS[k % 3], "generic"))
+        # LJSON: directed graphs / trees whose edges descend (i -> j with i > j)
+        for li in range(N_BASE_LETTERS, len(SHAPE_LETTERS)):
+            for d in (2, 3):
+                for nan in ("none", "coord"):
+                    k += 1
+                    out.append(("lj", "bare", ((8, li),), d, nan, "generic"))
+                    out.append(("lj", ("manager", "dict")[k % 2], ((k % 8, li), ((k + 3) % 8, 0)), d, nan, "generic"))
         # LJSON size boundaries: 1 point, 2 points (one possible edge), 3 points (one possible triangle);
         # a manager / dict with one group of one point is among them
         for n in SMALL_N:
@@ -1119,17 +1168,28 @@ class C16(Check):
             return []
         if kind == "proc":
             return [("fresh-process", "." + st["root"][3])] if level == 0 else []
-        if kind == "lj":
-            ops = self._rt_ops([".ljson"], level)
-            if not hasattr(st["cur"], "n_points"):
+        h = zlib.crc32(repr(st["root"]).encode("utf8"))
+
+        def with_opts(ops, sixth, seventh):
+            """slots 6 / 7: an export option form and an import option form, rotated so that (over the ops of a
+            state and over the roots) every value meets every spelling, name kind and value of the other option."""
+            return [o[:5] + (sixth[(i + h + level) % len(sixth)], seventh[(i // len(sixth) + i + h) % len(seventh)]) for i, o in enumerate(ops)]
+
+        if kind in ("lj", "pts"):
+            ext = ".ljson" if kind == "lj" else ".pts"
+            if self.tier == "thorough" and level == 0:  # all pairs of (spelling, extension form, name kind, import form)
+                nks = list(NAMEKINDS)
+                ops = [("rt", ext, sp_, nks[(si + fi) % 3], None, form, ("all", "group")[(si + fi) % 2]) for fi, form in enumerate(EXT_FORMS) for si, sp_ in enumerate(PLAIN_SP)]
+            else:
+                ops = with_opts(self._rt_ops([ext], level), EXT_FORMS, ("all", "group"))
+            if kind == "lj" and not hasattr(st["cur"], "n_points"):
                 # export_landmark_file compares Path(fp).suffix with ".ljson" case-sensitively for mappings:
                 # an upper-case extension is refused (ValueError) for dicts / managers - see assumptions()
                 ops = [o for o in ops if o[3] != "upper"]
             return ops
-        if kind == "pts":
-            return self._rt_ops([".pts"], level)
         if kind == "pkl":
-            return self._rt_ops([".pkl", ".pkl.gz"], level, (None, 4) if self.tier == "quick" else (None, 4, 0))
+            ops = self._rt_ops([".pkl", ".pkl.gz"], level, (None, 4, 2) if self.tier == "quick" else (None, 4, 0, 2))
+            return [o + (None, (None, "latin1")[(i // 3 + h) % 2]) for i, o in enumerate(ops)]
         if kind in ("imf", "imm"):
             root = st["root"]
             if kind == "imf" and root[2] == "RGBA" and not root[3]:
@@ -1140,41 +1200,64 @@ class C16(Check):
             ops = self._rt_ops(["." + o for o in outs], level)
             # the protocol slot carries the normalisation flag of the re-import
             res = []
+            base = bool(root[3]) if kind == "imf" else True
             for i, o in enumerate(ops):
-                norm = (root[3] if kind == "imf" else True) if i % 3 else not (root[3] if kind == "imf" else True)
-                res.append(o[:4] + (bool(norm),))
+                norm = (not base, base, None)[i % 3]  # None: normalize not passed (its default is True)
+                res.append(o[:4] + (norm, EXT_FORMS[(i + i // 4 + h + level) % 4], ("default", "none")[(i // 3 + h) % 2]))
             return res
         return self._ow_ops(st)
 
     def _ow_ops(self, st):
+        """("exp", exporter, object, name, spelling, overwrite, option form).  thorough: the full product of
+        object x name x spelling x overwrite x option; quick: that product without the option, plus every option
+        form with every overwrite value and spelling (names / objects rotating): all pairs of option values."""
         fam = st["root"][1]
         files = OW_FAMILIES[fam]
         mixed = fam == "mixed"
+        quick = self.tier == "quick"
         sps = ["str-rel", "path-abs"] if mixed else PLAIN_SP
-        out = []
-        for ow in (False, True):
-            for name, exporter in files:
-                if exporter is None:
-                    continue
-                for si, sp_ in enumerate(sps):
-                    for which in ("A", "B") + (("M", "D") if exporter == "ljson" and not mixed and si < 2 else ()):
-                        out.append(("exp", exporter, which, name, sp_, ow))
-        # the flag in other legal forms (numpy booleans, 0 / 1): only its truth value may matter
+        by_exp = OrderedDict()
         for name, exporter in files:
             if exporter is not None:
-                for owf in ("npF", "i0", "npT", "i1"):
-                    out.append(("exp", exporter, "B", name, "str-rel", owf))
+                by_exp.setdefault(exporter, []).append(name)
+        out = []
+        for ow in (False, True):
+            for exporter, names in by_exp.items():
+                forms = opt_forms(exporter)
+                for name in names:
+                    for si, sp_ in enumerate(sps):
+                        for which in ("A", "B") + (("M", "D") if exporter == "ljson" and not mixed and si < 2 else ()):
+                            for form in forms[:1] if quick or mixed else forms:
+                                out.append(("exp", exporter, which, name, sp_, ow, form))
+        if quick or mixed:
+            for exporter, names in by_exp.items():
+                for form in opt_forms(exporter)[1:]:
+                    i = 0
+                    for ow in (False, True):
+                        for sp_ in sps:
+                            out.append(("exp", exporter, "AB"[(i // 2) % 2], names[i % len(names)], sp_, ow, form))
+                            i += 1
+        # the flag in other legal forms (numpy booleans, 0 / 1): only its truth value may matter
+        for exporter, names in by_exp.items():
+            forms = opt_forms(exporter)
+            for ni, name in enumerate(names):
+                for k, owf in enumerate(("npF", "i0", "npT", "i1")):
+                    for form in ([forms[(k + ni) % len(forms)]] if quick or mixed else forms):
+                        out.append(("exp", exporter, "B", name, "str-rel", owf, form))
         for name, exporter in files:
             exists = st["fs"][name] != "absent"
             if not exists:
                 continue
             # refusal-only letters: spellings that need expansion, and the video exporter (no ffmpeg here)
             if exporter is not None:
-                for sp_ in EXOTIC_SP:
-                    out.append(("exp", exporter, "B", name, sp_, False))
+                forms = opt_forms(exporter)
+                for k, sp_ in enumerate(EXOTIC_SP):
+                    for form in ([forms[0], forms[1 + k % (len(forms) - 1)]] if quick or mixed else forms):
+                        out.append(("exp", exporter, "B", name, sp_, False, form))
             if name.endswith(VIDEO_EXT):
-                for sp_ in (["str-rel", "path-abs"] if mixed else PLAIN_SP + EXOTIC_SP):
-                    out.append(("exp", "video", "A", name, sp_, False))
+                for k, sp_ in enumerate(["str-rel", "path-abs"] if mixed else PLAIN_SP + EXOTIC_SP):
+                    for form in ([FPS_FORMS[k % 3]] if quick and not mixed else FPS_FORMS):
+                        out.append(("exp", "video", "A", name, sp_, False, form))
         return out
 
     # ------------------------------------------------------------------ canon
@@ -1229,14 +1312,23 @@ class C16(Check):
     def _apply_lj(self, st, op, verify):
         import menpo.io as mio
 
-        _, ext, sp_, nk, _p = op
+        _, ext, sp_, nk, _p = op[:5]
+        form, impopt = (op[5], op[6]) if len(op) > 6 else (None, "all")
         name = _fname(nk, ext)
         where = "ljson"
         obj = st["cur"]
-        _, exc = _call(st["dir"], sp_, name, lambda fp: mio.export_landmark_file(obj, fp))
+        ekw = {} if form is None else {"extension": ext_form(form, name)}
+        _, exc = _call(st["dir"], sp_, name, lambda fp: mio.export_landmark_file(obj, fp, **ekw))
         if exc is not None:
-            return [Failure(where, "export-raised", "export_landmark_file(%s, %s %r) raised %s: %s" % (type(obj).__name__, sp_, name, type(exc).__name__, exc))]
-        back, exc = _call(st["dir"], IMPORT_SP[sp_], name, lambda fp: mio.import_landmark_file(fp))
+            return [Failure(where, "export-raised", "export_landmark_file(%s, %s %r, %r) raised %s: %s" % (type(obj).__name__, sp_, name, ekw, type(exc).__name__, exc))]
+        if impopt == "group":  # every group asked for by name: the same groups as the mapping returned without the option
+            gnames = list(st["ref"].keys())
+            back, exc = _call(st["dir"], IMPORT_SP[sp_], name, lambda fp: OrderedDict((g, mio.import_landmark_file(fp, group=g)) for g in gnames))
+        else:
+            back, exc = _call(st["dir"], IMPORT_SP[sp_], name, lambda fp: mio.import_landmark_file(fp))
+        if verify:
+            self.note("rtopt:ext:%s" % form)
+            self.note("imp:group:%s" % impopt)
         if exc is not None:
             return [Failure(where, "import-raised", "import_landmark_file(%r) raised %s: %s" % (name, type(exc).__name__, exc))]
         fails = []
@@ -1245,6 +1337,9 @@ class C16(Check):
             refs = st["ref"]
             self.note("lj:ok" if not fails else "lj:failed")
             self.note("lj:groups%d" % len(refs))
+            for gi_ in st["root"][2]:
+                if gi_[1] >= N_BASE_LETTERS:
+                    self.note("lj:descending-edges:%s" % SHAPE_LETTERS[gi_[1]][1])
             n_min = min(r["points"].shape[0] for r in refs.values())
             if n_min < N:
                 self.note("lj:n%d" % n_min)
@@ -1280,15 +1375,23 @@ class C16(Check):
     def _apply_pts(self, st, op, verify):
         import menpo.io as mio
 
-        _, ext, sp_, nk, _p = op
+        _, ext, sp_, nk, _p = op[:5]
+        form, impopt = (op[5], op[6]) if len(op) > 6 else (None, "all")
         name = _fname(nk, ext)
         where = "pts"
         obj = st["cur"]
         exported = np.array(obj.points, copy=True)
-        _, exc = _call(st["dir"], sp_, name, lambda fp: mio.export_landmark_file(obj, fp))
+        ekw = {} if form is None else {"extension": ext_form(form, name)}
+        _, exc = _call(st["dir"], sp_, name, lambda fp: mio.export_landmark_file(obj, fp, **ekw))
         if exc is not None:
-            return [Failure(where, "export-raised", "export_landmark_file(%s, %r) raised %s: %s" % (type(obj).__name__, name, type(exc).__name__, exc))]
-        back, exc = _call(st["dir"], IMPORT_SP[sp_], name, lambda fp: mio.import_landmark_file(fp))
+            return [Failure(where, "export-raised", "export_landmark_file(%s, %r, %r) raised %s: %s" % (type(obj).__name__, name, ekw, type(exc).__name__, exc))]
+        if impopt == "group":
+            back, exc = _call(st["dir"], IMPORT_SP[sp_], name, lambda fp: {"PTS": mio.import_landmark_file(fp, group="PTS")})
+        else:
+            back, exc = _call(st["dir"], IMPORT_SP[sp_], name, lambda fp: mio.import_landmark_file(fp))
+        if verify:
+            self.note("rtopt:ext:%s" % form)
+            self.note("imp:group:%s" % impopt)
         if exc is not None:
             return [Failure(where, "import-raised", "import_landmark_file(%r) raised %s: %s" % (name, type(exc).__name__, exc))]
         fails = []
@@ -1325,7 +1428,9 @@ class C16(Check):
     def _apply_pkl(self, st, op, verify):
         import menpo.io as mio
 
-        _, ext, sp_, nk, proto = op
+        _, ext, sp_, nk, proto = op[:5]
+        enc = op[6] if len(op) > 6 else None
+        ikw = {} if enc is None else {"encoding": enc}
         name = _fname(nk, ext)
         where = "pickle"
         obj = st["cur"]
@@ -1334,7 +1439,10 @@ class C16(Check):
         _, exc = _call(st["dir"], sp_, name, lambda fp: mio.export_pickle(obj, fp, **kw))
         if exc is not None:
             return [Failure(where, "export-raised", "export_pickle(%s, %r) raised %s: %s" % (type(obj).__name__, name, type(exc).__name__, exc))]
-        back, exc = _call(st["dir"], IMPORT_SP[sp_], name, lambda fp: mio.import_pickle(fp))
+        back, exc = _call(st["dir"], IMPORT_SP[sp_], name, lambda fp: mio.import_pickle(fp, **ikw))
+        if verify:
+            self.note("rtopt:protocol:%s" % proto)
+            self.note("imp:encoding:%s" % enc)
         if exc is not None:
             return [Failure(where, "import-raised", "import_pickle(%r) raised %s: %s" % (name, type(exc).__name__, exc))]
         fails = []
@@ -1371,17 +1479,27 @@ class C16(Check):
         import menpo.io as mio
         import PIL.Image as PI
 
-        _, ext, sp_, nk, norm = op
+        _, ext, sp_, nk, norm_opt = op[:5]
+        form, resolver = (op[5], op[6]) if len(op) > 6 else (None, "default")
+        norm = True if norm_opt is None else norm_opt  # the documented default of `normalize`
+        ikw = {} if norm_opt is None else {"normalize": norm_opt}
+        if resolver == "none":
+            ikw["landmark_resolver"] = None
+        ekw = {} if form is None else {"extension": ext_form(form, _fname(nk, ext))}
         name = _fname(nk, ext)
         where = "image"
         im = st["cur"]
         exp = st["ref"]
         fref = st["aux"].get("fref")
         px_before = np.array(im.pixels, copy=True)
-        _, exc = _call(st["dir"], sp_, name, lambda fp: mio.export_image(im, fp))
+        _, exc = _call(st["dir"], sp_, name, lambda fp: mio.export_image(im, fp, **ekw))
         if exc is not None:
             return [Failure(where, "export-raised", "export_image(%s %s%s, %r) raised %s: %s" % (type(im).__name__, im.pixels.dtype, im.pixels.shape, name, type(exc).__name__, exc))]
-        back, exc = _call(st["dir"], IMPORT_SP[sp_], name, lambda fp: mio.import_image(fp, normalize=norm))
+        back, exc = _call(st["dir"], IMPORT_SP[sp_], name, lambda fp: mio.import_image(fp, **ikw))
+        if verify:
+            self.note("rtopt:ext:%s" % form)
+            self.note("imp:normalize:%s" % norm_opt)
+            self.note("imp:resolver:%s" % resolver)
         if exc is not None:
             return [Failure(where, "import-raised", "import_image(%r) raised %s: %s" % (name, type(exc).__name__, exc))]
         fails = []
@@ -1601,16 +1719,19 @@ class C16(Check):
                 st["objs"][key] = ow_object(exporter, which, self.seed)
         return st["objs"][key]
 
-    def _pristine(self, st, exporter, which, name):
-        """content the same export writes on a path that does not exist (private sub-directory)."""
-        key = (exporter, which, name)
-        if key not in st["pristine"]:
+    def _pristine(self, st, exporter, which, name, opt=None):
+        """content the same export (same options that shape the content) writes on a path that does not exist."""
+        opt = opt if exporter in ("pkl", "pklgz") and opt not in (None, "p2") else None  # the model: only protocol != default matters
+        key = (exporter, which, name, opt)
+        # never cached: reading an object (observe) may fill lazily created attributes and change its pickle,
+        # so the pristine export is made at the very moment of the comparison, from the very same object state
+        if True:
             obj, _ = self._ow_obj(st, exporter, which)
             pd = _shared("pristine")
             p = os.path.join(pd, name)
             if os.path.exists(p):
                 os.remove(p)
-            _export_call(exporter, obj, False)(p)
+            _export_call(exporter, obj, False, opt, name)(p)
             with open(p, "rb") as fh:
                 st["pristine"][key] = _content_key(name, fh.read())
             os.remove(p)
@@ -1619,7 +1740,8 @@ class C16(Check):
     def _apply_ow(self, st, op, verify):
         from menpo.io.exceptions import OverwriteError
 
-        _, exporter, which, name, sp_, ow_spec = op
+        _, exporter, which, name, sp_, ow_spec = op[:6]
+        opt = op[6] if len(op) > 6 else None
         ow_val = {"npF": np.bool_(False), "i0": 0, "npT": np.bool_(True), "i1": 1}.get(ow_spec, ow_spec) if isinstance(ow_spec, str) else ow_spec
         ow = bool(ow_val)
         if isinstance(ow_spec, str):
@@ -1632,7 +1754,7 @@ class C16(Check):
             from mc.core import HarnessError
 
             raise HarnessError("model and directory disagree before the op: %r %r" % (sorted(before), st["fs"]))
-        _, exc = _call(st["dir"], sp_, name, _export_call(exporter, obj, ow_val))
+        _, exc = _call(st["dir"], sp_, name, _export_call(exporter, obj, ow_val, opt, name))
         after = _snapshot(st["dir"])
         fails = []
         if exists and not ow:
@@ -1643,10 +1765,11 @@ class C16(Check):
                 if after != before:
                     changed = [n for n in sorted(set(after) | set(before)) if after.get(n) != before.get(n)]
                     fails.append(Failure(where, "file-intact", "refused export (%s, overwrite=False) changed %r: %s" % (sp_, changed, "; ".join("%s %s -> %s bytes" % (n, len(before.get(n, b"")), len(after.get(n, b""))) for n in changed))))
-                _, exc2 = _call(st["dir"], sp_, name, _export_call(exporter, obj, ow_val))
+                _, exc2 = _call(st["dir"], sp_, name, _export_call(exporter, obj, ow_val, opt, name))
                 if isinstance(exc, OverwriteError) and (type(exc2) is not type(exc) or str(exc2) != str(exc) or _snapshot(st["dir"]) != after):
                     fails.append(Failure(where, "refused-call-retry", "%s exists, overwrite=False, spelling %s: the retry was not refused in the same way (%r)" % (name, sp_, exc2)))
                 self.note("ow:refused:%s" % exporter)
+                self.note("owopt:refused:%s:%s" % ({"ljson": "ext", "pts": "ext", "image": "ext", "gif": "ext", "pkl": "protocol", "pklgz": "protocol", "video": "fps"}[exporter], opt))
                 self.note("ow:refused-obj:%s" % type(obj).__name__)
                 self.note("owsp:refused:%s" % sp_)
                 self.note("ow:refused-over:%s" % (st["fs"][name] if st["fs"][name] in ("foreign", "zero-byte") else "own"))
@@ -1661,7 +1784,7 @@ class C16(Check):
             if name in after:
                 st["fs"][name] = "broken:" + _sha(after[name])
             return fails
-        st["fs"][name] = "%s:%s" % (exporter, which)
+        st["fs"][name] = "%s:%s%s" % (exporter, which, ":" + opt if exporter in ("pkl", "pklgz") and opt not in (None, "p2") else "")
         if verify:
             others = [n for n in sorted(set(after) | set(before)) if n != name and after.get(n) != before.get(n)]
             if others:
@@ -1669,11 +1792,12 @@ class C16(Check):
             if name not in after:
                 fails.append(Failure(where, "content-differs-from-pristine", "export to %r (%s) reported success but the file is not there" % (name, sp_)))
             else:
-                want = self._pristine(st, exporter, which, name)
+                want = self._pristine(st, exporter, which, name, opt)
                 if _content_key(name, after[name]) != want:
                     fails.append(Failure(where, "content-differs-from-pristine", "%r after export(%s, overwrite=%s) over %s content: %d bytes, differs from the export to a fresh path (%d bytes)" % (name, which, ow, before.get(name) and "existing" or "no", len(after[name]), len(want) - 4)))
                 fails.extend(self._ow_roundtrip(st, where, exporter, name, sp_, obj, ref))
             self.note("ow:%s:%s" % ("overwritten" if exists else "created", exporter))
+            self.note("owopt:%s:%s:%s" % ("overwritten" if exists else "created", {"ljson": "ext", "pts": "ext", "image": "ext", "gif": "ext", "pkl": "protocol", "pklgz": "protocol"}[exporter], opt))
             self.note("owsp:written:%s" % sp_)
         return fails
 
@@ -1711,6 +1835,7 @@ class C16(Check):
                 "ow:refused-over:foreign", "ow:refused-over:own", "ow:refused-over:zero-byte",
                 "ow:refused-obj:LandmarkManager", "ow:refused-obj:dict", "ref:exists:landmark:LandmarkManager", "ref:exists:landmark:dict", "ref:exists:landmark:PointCloud",
                 "ref:exists:landmark:TriMesh", "ref:exists:pickle:dict", "ref:exists:pickle:PCAModel", "ref:exists:image:Image", "ref:exists:image:MaskedImage", "ref:exists:image:BooleanImage",
+                "lj:descending-edges:desc", "lj:descending-edges:alldesc", "lj:descending-edges:tree-root4",
                 "lj:n1", "lj:n2", "lj:n3", "lj:manager-one-group-one-point", "lj:dict-one-group-one-point", "pts:n0", "pts:n1", "pts:n2", "pts:n3",
                 "pkl:small:n0", "pkl:small:n1", "pkl:small:n2", "pkl:image-1x1", "img:size:1x1", "img:size:1xN", "img:size:Nx1", "img:1x1-value-0", "img:1x1-value-255"]
         for e in ("ljson", "pts", "image", "pkl", "pklgz", "gif"):
@@ -1722,6 +1847,11 @@ class C16(Check):
         need += ["img8:out.%s" % o for o in (LOSSLESS_OUT[:6] if self.tier == "quick" else LOSSLESS_OUT)]
         quick = self.tier == "quick"
         need += ["ref:%s:refused" % k for k in self.REF_KINDS]
+        for outcome in ("refused", "created", "overwritten"):
+            need += ["owopt:%s:ext:%s" % (outcome, f) for f in EXT_FORMS] + ["owopt:%s:protocol:%s" % (outcome, f) for f in PROTO_FORMS]
+        need += ["owopt:refused:fps:%s" % f for f in FPS_FORMS]
+        need += ["rtopt:ext:%s" % f for f in EXT_FORMS] + ["rtopt:protocol:%s" % f for f in (None, 2, 4)]
+        need += ["imp:group:all", "imp:group:group", "imp:encoding:None", "imp:encoding:latin1", "imp:normalize:None", "imp:normalize:True", "imp:normalize:False", "imp:resolver:default", "imp:resolver:none"]
         need += ["refsp:%s" % s_ for s_ in PLAIN_SP]
         need += ["proc:in.%s" % a for a in PROC_IN_QUICK + ([] if quick else PROC_IN_MORE)]
         need += ["proc:out.%s" % b for b in PROC_OUT_QUICK + ([] if quick else PROC_OUT_MORE)]
@@ -1766,6 +1896,8 @@ class C16(Check):
             "export_video is explored for the refusal path only (no ffmpeg): enabled only on existing paths with overwrite=False",
             "spellings that need expanduser / expandvars are explored for the refusal clause only (on success the landmark / image exporters open the unexpanded path)",
             "gzip files are compared after decompression where 'equal to a pristine export' is asked (the header holds a time stamp); 'intact' always means raw bytes",
+            "thorough: the core's confluence re-expansion is applied to every 101st merged duplicate (default 7) because an overwrite state has about 250 letters",
+            "documented options are crossed, not varied one at a time: extension= (absent / '.ext' / 'ext' / '.EXT', always agreeing with the path) for landmark and image exporters, protocol= (absent / explicit default 2 / 4 / 0) for pickles, fps= for the video refusal, each with overwrite (False / True / numpy and 0-1 forms) x path spelling x existing-or-not x object; thorough explores the full product in the overwrite families, quick all pairs of option values (the product without the option, plus every option form with every overwrite value and spelling); the round-trip roots rotate extension form, import_landmark_file(group=), import_image(normalize= absent/True/False, landmark_resolver= absent/None) and import_pickle(encoding=) so that all pairs occur over the root set; the model ignores an agreeing extension and keys pristine content on the protocol",
             "refused-call letters cover the refusals raised before the target is opened (existing path, unknown extension, extension argument that contradicts the path, several groups into .pts, file-like object without extension, video into a buffer, import of a missing file / unknown extension / missing group); refusals raised AFTER the open (image with 2 or 4 channels, float pixels outside [0,1], infinite coordinate in LJSON, unpicklable object) leave an empty or partial file behind and truncate an existing one under overwrite=True - reported, not letters",
             "upper-case file extensions (F.V2.LJSON) are letters for single shapes, pts, pickles and images; for dicts / LandmarkManagers export_landmark_file refuses them with ValueError (its multi-group guard compares the suffix case-sensitively) - a refusal, not a changed round trip",
             "pickled lists of exactly one element come back unwrapped by import_pickle and LazyList.init_from_iterable is not picklable: neither is a letter",
